@@ -7,7 +7,7 @@ Intents (JSON lists):
   ['connect', lazy]                 a client connects; lazy=1: transport.close() does not report
                                     connection_lost by itself (asyncio with unflushed write buffer)
   ['open', c, i, beh, dl, prog]     HEADERS for a new stream; beh 'h<n>'|'sw'; dl=0 or k>=1 (the deadline
-                                    fires in the middle of the k-th tick after the open); prog over RSWT
+                                    fires in the middle of the k-th tick after the open); prog over RSWTX (X = trailers with a non-OK status)
   ['msg', c, i] ['credit', c, i] ['rst', c, i] ['goaway', c] ['protoerr', c]     peer frames
   ['batch', c, [intents...]]        peer frames of several intents delivered in ONE data_received
   ['lose', c]                       connection_lost
@@ -19,6 +19,7 @@ import math
 import struct
 
 from grpclib.server import Server
+from grpclib.const import Status
 from h2.settings import SettingCodes
 
 from harness import vloop
@@ -162,6 +163,9 @@ class Scenario:
             await stream.send_message(PAYLOAD)
         elif kind == 'T':
             await stream.send_trailing_metadata()
+        elif kind == 'X':
+            # non-OK trailers: the server closes the HTTP/2 stream itself (RST_STREAM) and the handler goes on
+            await stream.send_trailing_metadata(status=Status.ABORTED)
         else:
             raise ValueError(kind)
 
